@@ -115,7 +115,7 @@ func corrC20(r *Run) {
 	}
 	r.Sample(map[string]interface{}{"codec": "esm_class", "octet": 0xC3, "decoded": "mode=3 type=0 udhi reply"})
 	// --- encoders on arbitrary (unnormalised) struct contents: model must mask the same way
-	n := r.N(600, 6000)
+	n := r.N(300, 6000)
 	for i := 0; i < n; i++ {
 		e := pdu.ESMClass{MessageMode: r.Rng.Byte(), MessageType: r.Rng.Byte(), UDHIndicator: r.Rng.Bool(), ReplyPath: r.Rng.Bool()}
 		c, _ := e.ReadByte()
